@@ -437,9 +437,28 @@ def roundtrip_check(op, root, cap, atypes, requested_graph, log_msgs):
         rec.add_edges_from(mm.edges)
         nm = lambda a, b: a["resname"] == b["resname"] and a["resid"] == b["resid"]
         if not nx.is_isomorphic(req, rec, node_match=nm):
+            # which requested residue pairs are joined in the built molecule by no bond/constraint/virtual site
+            # but only by another interaction (e.g. an angle of a multi-residue link)?
+            resid_of = [a["resid"] for a in exp_atoms]
+            bonded = set()
+            other = set()
+            for sec, its in exp_inter.items():
+                for (atoms, params, guard) in its:
+                    rs = {resid_of[a] for a in atoms}
+                    pairs = {frozenset((x, y)) for x in rs for y in rs if x != y}
+                    if sec in ("bonds", "constraints") or sec.startswith("virtual_sites"):
+                        bonded |= pairs
+                    else:
+                        other |= pairs
+            start = requested_graph.get("resid_start", 1)
+            req_pairs = {frozenset((a + start, b + start)) for a, b in requested_graph["edges"]}
+            nonbond_only = sorted(tuple(sorted(p)) for p in req_pairs if p not in bonded and p in other)
+            unexplained = sorted(tuple(sorted(p)) for p in req_pairs if p not in bonded and p not in other)
             viols.append(("resgraph", f"residue graph recovered from the file ({rec.number_of_nodes()} residues, "
                                       f"{rec.number_of_edges()} edges) is not isomorphic to the requested one "
-                                      f"({req.number_of_nodes()}, {req.number_of_edges()})"))
+                                      f"({req.number_of_nodes()}, {req.number_of_edges()}) although no missing link was "
+                                      f"reported; residue pairs joined only by non-bond interactions: {nonbond_only[:4]}",
+                          {"nonbond_only_pairs": len(nonbond_only), "unexplained_pairs": len(unexplained)}))
     return viols
 
 
